@@ -178,7 +178,14 @@ func build(ns []int, pat string, withMeta bool) ([]byte, [][]expectEv) {
 // events are interspersed (see there).
 var tempoLayout int
 
+// reportMap: the map as the caller first had it (same-map variants judge the
+// changed map but a replay starts from the original).
+var reportMap map[int]string
+
 func report(sig string, ns []int, pat string, withMeta bool, sel []int, mp map[int]string, what string) {
+	if reportMap != nil {
+		mp = reportMap
+	}
 	if ctx.SigCount(sig) < 10 {
 		ctx.Violation(sig, map[string]interface{}{"kind": "play", "events_per_track": ns, "pattern": pat, "with_meta": withMeta, "tempo_layout": tempoLayout, "selection": sel, "port_map": fmt.Sprint(mp), "map": mp, "what": what})
 	}
@@ -254,7 +261,20 @@ func play(data []byte, exp [][]expectEv, ns []int, pat string, withMeta bool, se
 		// the same reader played a second time, into a port whose Send takes time
 		playVariant(data, exp, ns, pat, withMeta, sel, mp, false, true, false)
 	}
+	if _, ok := mp[-1]; ok && len(mp) <= 2 {
+		// the caller's own map used for two playbacks, with its default entry
+		// exchanged (1) or taken away (2) in between: the second playback
+		// follows the map as it is then
+		for sameMap = 1; sameMap <= 2; sameMap++ {
+			playVariant(data, exp, ns, pat, withMeta, sel, mp, false, false, false)
+		}
+		sameMap = 0
+	}
 }
+
+// sameMap: playVariant plays once with the map as given, changes the default
+// entry of that very map object and judges a second playback with it.
+var sameMap int
 
 // clearedFilter: playVariant sets a type filter and takes it away again before playing.
 var clearedFilter bool
@@ -268,6 +288,7 @@ func playVariant(data []byte, expAll [][]expectEv, ns []int, pat string, withMet
 	}
 	ctx.Eval()
 	vtime.Reset()
+	reportMap = nil
 	exp := expAll
 	if only {
 		exp = make([][]expectEv, len(expAll))
@@ -300,7 +321,36 @@ func playVariant(data []byte, expAll [][]expectEv, ns []int, pat string, withMet
 	for k, v := range mp {
 		outs[k] = ports[v]
 	}
-	tr := smf.ReadTracksFrom(bytes.NewReader(data), sel...)
+	// the selection is handed over from a slice of the caller's that is
+	// overwritten once the call has returned
+	selArg := append([]int(nil), sel...)
+	tr := smf.ReadTracksFrom(bytes.NewReader(data), selArg...)
+	for i := range selArg {
+		selArg[i] = 7 + i
+	}
+	if sameMap != 0 {
+		pat += fmt.Sprintf("+same-map-%d", sameMap)
+		engine.Catch(func() { tr.MultiPlay(outs) })
+		l.evs = nil
+		vtime.Reset()
+		reportMap = mp
+		mp2 := map[int]string{}
+		for k, v := range mp {
+			mp2[k] = v
+		}
+		if sameMap == 1 {
+			other := "A"
+			if mp[-1] == "A" {
+				other = "B"
+			}
+			mp2[-1] = other
+			outs[-1] = ports[other]
+		} else {
+			delete(mp2, -1)
+			delete(outs, -1)
+		}
+		mp = mp2
+	}
 	if only {
 		tr = tr.Only(midi.ControlChangeMsg)
 	}
@@ -702,6 +752,11 @@ func main() {
 		zeroTr := strings.Contains(pat, "@zero-tracks-header")
 		pat = strings.Replace(pat, "@zero-tracks-header", "", 1)
 		clearedFilter = strings.Contains(pat, "+filter-cleared")
+		if strings.Contains(pat, "+same-map-1") {
+			sameMap = 1
+		} else if strings.Contains(pat, "+same-map-2") {
+			sameMap = 2
+		}
 		only, twice, both := strings.Contains(pat, "+only-filter"), strings.Contains(pat, "+second-playback"), strings.Contains(pat, "+only-two-types")
 		if i := strings.Index(pat, "+"); i >= 0 {
 			pat = pat[:i]
